@@ -1,5 +1,8 @@
 import TbbVerif.Core.Proto
 import TbbVerif.Model.C02
+import TbbVerif.Model.C02BQ
+import TbbVerif.Model.C02AE
+import TbbVerif.Model.C02EX
 
 open TbbVerif
 
@@ -7,7 +10,10 @@ def drivers : List (String × Proto.Driver) := [
   ("c02mon", C02.driverMon),
   ("c02sem", C02.driverSem),
   ("c02tso", C02.driverTso),
-  ("c02flag", C02.driverFlag)
+  ("c02flag", C02.driverFlag),
+  ("c02bq", C02.BQ.driver),
+  ("c02ae", C02.AE.driver),
+  ("c02ex", C02.EX.driver)
 ]
 
 def main (args : List String) : IO UInt32 := Proto.mainOf drivers args
